@@ -33,7 +33,8 @@ import (
 //   addgauge <owner> <gaugeId> <c0,c1>
 //   mkstream <c0,c1> <g:w,...|-> <start> <epochId> <numEpochs> | term <id> | replace <id> <g:w,...>
 // Harness-only lines (executed on the real lockup module, not shown to the model; the resulting lock
-// table is handed to the model by a `locks` line): lock <owner> <denom> <amt> <dur>, unlock <owner> <lockId>
+// table is handed to the model by a `locks` line): lock <owner> <denom> <amt> <dur>, unlock <owner> <lockId>;
+// xferowner <r> <newOwner>: real MsgTransferOwnership (on success the model gets a `rollapp` line)
 // Addresses: 0..na-1 actors, 100 streamer module, 101 incentives module, 102 lockup module (blocked).
 // Times: seconds since BaseTime + c15T0; 0 is the zero time.  Epoch ids: 0 day, 1 hour, 2 week.
 
@@ -119,6 +120,7 @@ type c15Trace struct {
 	sharesExceeded bool
 	blockedOwner   bool
 	servedTwice    bool
+	ptrStreamGone  bool // a stream was terminated while its epoch's pointer pointed into it
 	// per stream: distributed coins at the start of its current epoch, the most one epoch may hand out
 	// (sum of the real CalculateGaugeRewards over its records), and whether its records were replaced
 	epochBase   map[uint64]sdk.Coins
@@ -134,6 +136,8 @@ func (t *c15Trace) cause() string {
 		return "pair-served-twice"
 	case t.sharesExceeded:
 		return "share-rounding"
+	case len(t.retargeted) > 0:
+		return "records-replaced" // governance re-targeted a stream's records (possibly in the middle of an epoch)
 	}
 	return "unexplained"
 }
@@ -321,6 +325,13 @@ func (w *c15World) apply(fl []string, unlimited bool) (class string, err error) 
 	case "unlock":
 		_, err := f.Deliver(lockuptypes.NewMsgBeginUnlocking(c15Addr(int(n(1))), uint64(n(2)), nil))
 		return c15Class(err), err
+	case "xferowner":
+		ra, ok := f.App.RollappKeeper.GetRollapp(f.Ctx, c15RollappID(int(n(1))))
+		if !ok {
+			return "err", fmt.Errorf("no rollapp")
+		}
+		_, err := f.Deliver(&rollapptypes.MsgTransferOwnership{CurrentOwner: ra.Owner, NewOwner: c15Addr(int(n(2))).String(), RollappId: ra.RollappId})
+		return c15Class(err), err
 	case "rollapp":
 		f.App.RollappKeeper.SetRollapp(f.Ctx, rollapptypes.Rollapp{RollappId: c15RollappID(int(n(1))), Owner: c15Addr(int(n(2))).String(), Launched: fl[3] == "1"})
 		return "ok", nil
@@ -446,10 +457,10 @@ func c15Only(cs sdk.Coins) sdk.Coins {
 func (t *c15Trace) exec(line string) bool {
 	r := t.r
 	fl := strings.Fields(line)
-	if len(fl) == 0 || fl[0] == "locks" || fl[0] == "reset" {
+	if len(fl) == 0 || fl[0] == "locks" || fl[0] == "reset" || (fl[0] == "rollapp" && len(fl) > 2 && fl[2] == "102") {
 		return true // `locks` lines are derived from the real lockup module, never taken from a file
 	}
-	harnessOnly := fl[0] == "lock" || fl[0] == "unlock"
+	harnessOnly := fl[0] == "lock" || fl[0] == "unlock" || fl[0] == "xferowner"
 	t.lines = append(t.lines, line)
 	pre := t.w.snap()
 	preLocks, _ := t.w.f.App.LockupKeeper.GetPeriodLocks(t.w.f.Ctx)
@@ -484,6 +495,17 @@ func (t *c15Trace) exec(line string) bool {
 		t.onHalt(fl[0], class, err)
 		return false
 	}
+	if fl[0] == "xferowner" && class == "ok" {
+		// the transfer went through on the real rollapp module: tell the model the new owner
+		ra, _ := t.w.f.App.RollappKeeper.GetRollapp(t.w.f.Ctx, c15RollappID(func() int { v, _ := strconv.Atoi(fl[1]); return v }()))
+		rl := fmt.Sprintf("rollapp %s %s %s", fl[1], fl[2], c15b(ra.Launched))
+		t.lines = append(t.lines, rl)
+		r.Emit(rl, "ok | "+t.w.obs())
+		if fl[2] == "102" {
+			t.blockedOwner = true
+			r.Hit("rollapp-owner-blocked")
+		}
+	}
 	// hand the (possibly changed) lock table to the model
 	if fl[0] == "lock" || fl[0] == "unlock" || fl[0] == "end" {
 		if ll := t.w.locksLine(); ll != t.lastLocks {
@@ -508,19 +530,22 @@ func (t *c15Trace) onHalt(op, class string, err error) {
 		msg = err.Error()
 	}
 	r.Hit("halt/" + op)
+	// every failing Begin/EndBlock is a C11 matter ("block processing never fails"); the signature names the cause
 	switch {
-	case t.blockedOwner && strings.Contains(msg, "not allowed to receive funds"):
-		// F4 (C11's finding): a rollapp owned by a blocked module account; deliberately generated branch
+	case op == "end" && t.blockedOwner && strings.Contains(msg, "not allowed to receive funds"):
+		// F4: the owner of a rollapp with a gauge was transferred to a blocked module account
 		r.Hit("halt/blocked-rollapp-owner")
-	case op == "end" && strings.Contains(msg, "insufficient funds") && (t.sharesExceeded || t.servedTwice || t.everUnsorted):
+		r.Violate("C11/block/streamer-endblock-fails/blocked-rollapp-owner",
+			"streamer EndBlock failed (block processing stops): a rollapp gauge pays the rollapp owner, who is a blocked module account: "+c15Short(msg), t.replay()...)
+	case op == "end" && strings.Contains(msg, "insufficient funds"):
 		c := t.cause()
-		if c == "unexplained" { // the failing block itself is the second visit
+		if c == "unexplained" && t.everUnsorted { // the failing block itself is the second visit
 			c = "pair-served-twice"
 		}
-		r.Violate("C15/block/endblock-fails-streamer-cannot-pay/"+c,
+		r.Violate("C11/block/end-fails/streamer-cannot-pay-"+c,
 			"streamer EndBlock failed (block processing stops): streams try to hand out more than the streamer account holds: "+c15Short(msg), t.replay()...)
 	default:
-		r.Violate("C15/block/"+op+"-fails", "block processing failed: "+c15Short(msg), t.replay()...)
+		r.Violate("C11/block/"+op+"-fails/other", "block processing failed: "+c15Short(msg), t.replay()...)
 	}
 }
 
@@ -539,6 +564,20 @@ func (t *c15Trace) monitors(fl []string, class string, pre c15Snap, preLocks []l
 	ik, sk, bk := f.App.IncentivesKeeper, f.App.StreamerKeeper, f.App.BankKeeper
 	op := fl[0]
 	post := t.w.snap()
+
+	// a terminated stream's last (partial) epoch naturally depends on how far the paging had got
+	if op == "term" && class == "ok" {
+		if id, err := strconv.ParseUint(fl[1], 10, 64); err == nil {
+			t.retargeted[id] = true
+			r.Hit("stream-terminated")
+			if st, err := sk.GetStreamByID(f.Ctx, id); err == nil {
+				if strings.HasPrefix(pre.ptrs[st.DistrEpochIdentifier], fl[1]+"/") {
+					t.ptrStreamGone = true
+					r.Hit("stream-terminated-under-pointer")
+				}
+			}
+		}
+	}
 
 	// exactly once per epoch: within one epoch a stream hands out at most the sum of its records' shares
 	{
@@ -804,8 +843,10 @@ func (t *c15Trace) monitors(fl []string, class string, pre c15Snap, preLocks []l
 				t.shadowOK = false
 				what := "other"
 				switch {
-				case t.everUnsorted:
+				case t.everUnsorted && t.servedTwice:
 					what = "unsorted-active-streams"
+				case t.ptrStreamGone:
+					what = "pointer-stream-terminated"
 				case t.midEpochJoin:
 					what = "stream-activated-mid-epoch"
 				}
@@ -1080,9 +1121,9 @@ func (x *c15Gen) txOp() bool {
 			rr := g.Intn(x.nRoll)
 			owner := g.Intn(c15NA)
 			if perturb && g.Chance(15) {
-				owner = 102
-				x.t.blockedOwner = true
-				x.t.r.Hit("rollapp-owner-blocked")
+				// deliberately: hand the rollapp to a blocked module account through the real message
+				x.t.r.Hit("perturb/xferowner-blocked")
+				return x.do(fmt.Sprintf("xferowner %d 102", rr))
 			}
 			return x.do(fmt.Sprintf("rollapp %d %d %s", rr, owner, c15b(g.Chance(75))))
 		}
@@ -1258,6 +1299,38 @@ var c15Witnesses = map[string][]string{
 		"mkstream 3000,0 1:1,2:1 NOW 1 1", "mkstream 3000,0 1:1,2:1 NOW 1 3", "mkstream 3000,0 1:1,2:1 NOW 1 3",
 		"begin 3601", "end", "begin 1200", "end", "begin 1200", "end", "begin 1201", "end", "begin 1200", "end", "begin 1200", "end", "begin 1201", "end",
 		"begin 1200", "end", "begin 1200", "end", "begin 1201", "end", "begin 1200", "end",
+	},
+	// F4: a launched rollapp with a gauge is transferred to a blocked module account; a stream pays the gauge
+	"f4-blocked-rollapp-owner": {
+		"begin 1", "end",
+		"rollapp 0 2 1", "rgauge 0",
+		"fund 100 9000,0",
+		"mkstream 9000,0 1:1 NOW 1 3",
+		"xferowner 0 102",
+		"begin 3601", "end", "begin 3601", "end", "begin 3601", "end",
+	},
+	// governance re-targets a half-served stream in the middle of the epoch (limit 1): gauge 2 gets the whole
+	// epoch amount on top of what gauge 1 already got; stream 1 hands out 1500 of 1000 and the next EndBlock
+	// cannot pay stream 2 (the first `begin 3601` only activates the streams; the second starts their epoch)
+	"retarget-mid-epoch": {
+		"maxiter 1",
+		"begin 1", "end",
+		"mkgauge 0 1 0 1 0,0 NOW 1", "mkgauge 0 1 0 1 0,0 NOW 1", "mkgauge 0 1 0 1 0,0 NOW 1",
+		"lock 1 0 100 3600",
+		"fund 100 2000,0",
+		"mkstream 1000,0 1:1,2:1 NOW 1 2", "mkstream 1000,0 3:1 NOW 1 2",
+		"begin 3601", "end", "begin 3601", "end", "replace 1 2:1", "begin 10", "end", "begin 10", "end",
+	},
+	// governance terminates stream 1 while the hour pointer points into it (limit 1): the bisection resolves the
+	// pointer (1, gauge 2) to stream 2 and skips stream 2's gauge 1 for this epoch
+	"terminate-under-pointer": {
+		"maxiter 1",
+		"begin 1", "end",
+		"mkgauge 0 1 0 1 0,0 NOW 1", "mkgauge 0 1 0 1 0,0 NOW 1", "mkgauge 0 1 0 1 0,0 NOW 1",
+		"lock 1 0 100 3600",
+		"fund 100 6000,0",
+		"mkstream 3000,0 1:1,2:1,3:1 NOW 1 2", "mkstream 3000,0 1:1,2:1,3:1 NOW 1 2",
+		"begin 3601", "end", "begin 3601", "end", "term 1", "begin 10", "end", "begin 10", "end", "begin 10", "end", "begin 3601", "end",
 	},
 	// a stream that becomes active at another identifier's epoch start is served in its first (partial)
 	// epoch only if the pointer of its own epoch has not yet reached the end
